@@ -95,7 +95,16 @@ def materialise(case):
             m["name"] = ""
         elif x < 0.10:
             m["id"] = ""
-        elif x < 0.25:
+        elif x < 0.30:
+            m["name"] = "assembly"          # the default name, asked for explicitly together with another id
+        elif x < 0.36:
+            # white space at either end (a sample sheet's trailing newline, a padded fixed-width name): what was requested is
+            # what the product carries; an id with white space is not GenBank-legal (no round trip required)
+            if re_.random() < 0.5:
+                m["name"] = re_.choice([" ", ""]) + m["name"] + re_.choice(["   ", "\t"])
+            else:
+                m["id"] = m["id"] + re_.choice(["\n", " "])
+        elif x < 0.51:
             # dotted ids: a version that is a number, and lab spellings that are not ("pJC.v2", "kit.part-3", "a.b.1")
             m["id"] = m["id"][:9] + re_.choice([".1", ".12", ".v2", ".2b", ".part-3", ".b.1", "."])
         return m
